@@ -13,13 +13,16 @@ RULE = (
     "over one filter: predict(dt in (0,max_dt], control in the box), predict_back(dt<0), update(sensor, reading = "
     "prediction + small or large innovation). Filters come from (i) Euler-form generated models, (ii) exactly-correlated "
     "templates x_k' = c*x_j + u whose process Jacobian is singular, (iii) the project's own mass/z/v/a example; the "
-    "initial covariance is SPD (lambda in [0.05,20]) or exactly rank-deficient PSD (A A^T). After every step: the call "
+    "initial covariance is SPD (lambda in [0.05,20]), exactly rank-deficient PSD (A A^T), or nearly diagonal (off-diagonal 1e-7..1e-11 of the diagonal, exactly symmetric). After every step: the call "
     "must not refuse the covariance (AssertionError 'Negative Covariance'/symmetry) and the returned covariance C must "
     "satisfy max|C-C^T| <= 1e-9*max|C| and lambda_min(sym C) >= -0.5e-9*lambda_max - 0.5e-15 (strictly inside what the "
     "filter's own gate admits, so a covariance that passes the invariant can never be legitimately refused by the next "
-    "call). A history is truncated (not failed) when |x| or |P| leaves [1e-6,1e6]. Non-trivial = >=5 executed steps with "
+    "call). A history is truncated (not failed) when |P| leaves [1e-6,1e3] or |x| exceeds 100 (bounded dynamic range: prior/noise <= 2e4; nonlinear sensor Jacobians stay <= ~3e4 so that eps*|H|^2*|P| stays below the sensor noise). Non-trivial = >=5 executed steps with "
     "both predictions and updates on a model whose process Jacobian is singular or whose initial covariance is rank "
-    "deficient; distinct = sha1(case)."
+    "deficient; distinct = sha1(case). A quarter of the cases are 'wide dynamic range' histories (prior L L^T up to ~1e6 with "
+    "correlated states, sensor noise 1e-3..1e-1): there only the gate is judged: a refusal "
+    "counts iff the refused input was symmetric/PSD to 1e-12 of its own magnitude; an output that is not strictly valid "
+    "(accuracy there is eps*cond(S)*|prior|) truncates the history."
 )
 ASSUMPTIONS = [
     "noises in [0.05,2], initial eigenvalues in [0.05,20] (bounded noise/covariance ratios as the property's quantifier states)",
@@ -76,7 +79,7 @@ def cases(draw, steps=40):
     kind = draw(st.sampled_from(["euler", "correlated", "correlated", "mass"]))
     if kind == "euler":
         m = draw(models.model_specs(names="ident", n_state=(1, 3), n_control=(0, 2), n_calib=(0, 1), n_sensors=(1, 2),
-                                    n_readings=(1, 2), depth=2, sensor_depth=1, euler=True, innovation=("none", "k")))
+                                    n_readings=(1, 2), depth=2, sensor_depth=1, euler="bounded", innovation=("none", "k")))
     elif kind == "correlated":
         m = draw(correlated_model())
     else:
@@ -86,6 +89,24 @@ def cases(draw, steps=40):
     n = len(m["state"])
     rank = draw(st.sampled_from([None, None, max(1, n - 1), 1])) if n > 1 else None
     P0 = draw(ekf.spd(n, lam=(0.05, 20.0), rank=rank))
+    if n > 1 and rank is None and draw(st.integers(0, 2)) == 0:
+        # nearly decoupled states: exactly symmetric, off-diagonal entries 1e-7..1e-11 of the diagonal scale, so that a
+        # rounding-level asymmetry is tiny relative to the matrix but not relative to the element it sits in
+        e = draw(st.sampled_from([1e-7, 1e-9, 1e-11]))
+        lam = [draw(st.floats(0.05, 100.0, allow_nan=False)) for _ in range(n)]
+        P0 = [[(lam[i] if i == j else e * draw(st.floats(-1, 1, allow_nan=False))) for j in range(n)] for i in range(n)]
+        P0 = [[P0[min(i, j)][max(i, j)] for j in range(n)] for i in range(n)]
+    # (linear sensors only: with a nonlinear sensor |H|^2 |P| eps can exceed the sensor noise at large states)
+    wide = kind != "euler" and draw(st.integers(0, 2)) == 0
+    if wide:
+        # wide dynamic range: prior ~1e4..1e6 with correlated states and accurate sensors (noise 1e-3..1e-1)
+        L = [[(draw(st.floats(-1, 1, allow_nan=False)) * 10.0 ** draw(st.integers(-1, 3)) if j < i else
+               (draw(st.floats(0.2, 1, allow_nan=False)) * 10.0 ** draw(st.integers(-1, 3)) if j == i else 0.0))
+              for j in range(n)] for i in range(n)]
+        P0 = (np.array(L) @ np.array(L).T)
+        P0 = ((P0 + P0.T) / 2).tolist()
+        m = dict(m)
+        m["sensor_noises"] = {k: {r: draw(st.sampled_from([1e-3, 1e-2, 1e-1])) for r in rs} for k, rs in m["sensor_noises"].items()}
     x0 = draw(models.points(m))
     ops = []
     for _ in range(draw(st.integers(5, steps))):
@@ -97,7 +118,8 @@ def cases(draw, steps=40):
         else:
             frac = draw(st.one_of(st.just(1.0), st.floats(0.01, 1.0, allow_nan=False)))
             ops.append({"op": k, "frac": frac, "u": {c: draw(models.signed_val()) for c in m["control"]}})
-    return {"kind": kind, "model": m, "P0": P0, "rank_deficient": rank is not None and rank < n, "x0": x0, "ops": ops}
+    return {"kind": kind, "model": m, "P0": P0, "rank_deficient": rank is not None and rank < n, "x0": x0, "ops": ops,
+            "wide": wide}
 
 
 def valid(C):
@@ -108,6 +130,14 @@ def valid(C):
     lmin, lmax = float(w[0]), float(w[-1])
     ok = asym <= 1e-9 * mx and lmin >= -0.5e-9 * max(abs(lmax), abs(lmin)) - 0.5e-15
     return ok, asym, lmin, lmax, mx
+
+
+def strictly_valid(C):
+    """symmetric and PSD at rounding level relative to the covariance's OWN magnitude"""
+    C = np.asarray(C, float)
+    mx = float(np.max(np.abs(C), initial=0.0))
+    w = np.linalg.eigvalsh((C + C.T) / 2)
+    return float(np.max(np.abs(C - C.T), initial=0.0)) <= 1e-12 * mx and float(w[0]) >= -1e-12 * max(abs(float(w[-1])), mx) - 1e-15
 
 
 def singular_jacobian(f, m, state, control):
@@ -130,6 +160,8 @@ def case(spec, ctx):
     sing = singular_jacobian(f, m, state, f.Control(**{c: 0.3 for c in m["control"]}))
     max_dt = m["config"]["max_dt"]
     n_pred = n_upd = executed = 0
+    wide = bool(spec.get("wide"))
+    runmax = float(np.max(np.abs(cov.data)))
     for i, op in enumerate(spec["ops"]):
         before = cov.data.copy()
         try:
@@ -149,6 +181,11 @@ def case(spec, ctx):
         except AssertionError as e:
             okb, asym, lmin, lmax, mx = valid(before)
             where = ctxmod.formak_frame(e.__traceback__)
+            if wide and not strictly_valid(before):
+                # after cancellation against a much larger prior the input is PSD only relative to that prior; a refusal
+                # of such an input is not judged (the property speaks of validity relative to the covariance's own magnitude)
+                ctx.event("wide:legitimate_refusal_after_cancellation")
+                break
             ctx.fail(f"refused-valid-covariance:{op['op']}@{where}",
                      f"step {i} ({op['op']}): filter raised AssertionError on an input covariance with lambda_min={lmin!r} "
                      f"lambda_max={lmax!r} asym={asym!r}: {str(e)[:300]}", spec)
@@ -164,12 +201,24 @@ def case(spec, ctx):
             ctx.event("truncated_nonfinite")
             break
         okc, asym, lmin, lmax, mx = valid(C)
+        runmax = max(runmax, mx)
+        if wide:
+            # In the wide class only the gate is judged ("a covariance that is valid relative to its own magnitude is never
+            # refused"): the achievable accuracy of P - K H P there is eps*cond(S)*|P_prior| (measured: cond(S) ~ 2e8 with
+            # a 4e4 prior, 1e-3 noise and redundant readings gives errors of 1e-4 on a posterior of 1e-4), so an output
+            # that is no longer strictly valid ends the history instead of failing it.
+            if not strictly_valid(C):
+                ctx.event("wide:output_not_strictly_valid(history truncated)")
+                break
+            okc = True
         if not okc:
             ctx.fail(f"invalid-covariance-returned:{op['op']}",
                      f"step {i} ({op['op']}): returned covariance has asym={asym!r} lambda_min={lmin!r} lambda_max={lmax!r} "
                      f"(input was valid)", spec)
         nx = float(np.max(np.abs(x), initial=0.0))
-        if mx > 1e6 or mx < 1e-6 or nx > 1e6:
+        # dynamic range bound: the cancellation error of P - K H P is ~eps*|P_prior|; with noises >= 0.05 a prior
+        # of 1e3 keeps it >= 50x below the invariant's 0.5e-9 (measured: priors ~1e6 give -1e-8 relative)
+        if (mx > 1e3 and not wide) or mx > 1e9 or mx < 1e-6 or nx > (1e6 if wide else 100.0):
             ctx.event("truncated_out_of_range")
             break
     ctx.count(executed)
@@ -178,6 +227,8 @@ def case(spec, ctx):
         ctx.event("singular_process_jacobian")
     if spec["rank_deficient"]:
         ctx.event("rank_deficient_P0")
+    if wide:
+        ctx.event("wide_dynamic_range")
     ctx.event("steps_executed", executed)
     if executed >= 5 and n_pred and n_upd and (sing or spec["rank_deficient"]):
         ctx.nontrivial(spec)
